@@ -58,6 +58,11 @@ class VLayout(S.Layout):
         present = self.p.random() < 0.6
         return self.ws() if present else ''
 
+    def pre(self):
+        """an optional gap in front of ':' ';' ',' ')' : present or absent by the shared PRNG, its content by the variant's"""
+        present = self.p.random() < 0.2
+        return self.ws() if present else ''
+
     def comment(self):
         r = self.rng
         if r.random() < 0.3:
